@@ -56,7 +56,13 @@ LifeStep(r) ==
                [] a.op = "forget" -> LForget(pre, a.o)
         o == IF a.op = "copy" THEN a.p ELSE a.o
         new == post.objs[o]
-    IN  IF ~LUnique(post) THEN Bad("life.unique", e.s.objs)
+    IN  IF a.op = "failcreate" THEN
+             \* a rejected construction: no object appears or changes, nothing is released
+             (IF post.objs # pre.objs THEN Bad("life.ids", pre.objs)
+              ELSE IF \E m \in DOMAIN post.man : ~(pre.man[m].used \subseteq post.man[m].used)
+                   THEN Bad("life.allocator", pre.man)
+              ELSE Good)
+        ELSE IF ~LUnique(post) THEN Bad("life.unique", e.s.objs)
         ELSE IF ~LPositive(post) THEN Bad("life.positive", e.s.objs)
         \* every other object is untouched; the object itself is as the specification says,
         \* up to which fresh ID it was given
@@ -129,6 +135,13 @@ FixStep(r) ==
                [] r.a.op = "fixdel" -> FixDel(pre, r.a.v)
                [] r.a.op = "fixcopy" -> pre
     IN  IF ~NoDupIdx(r.post) THEN Bad("fix.unique", e)
+        \* a new variable gets SOME unused positive index (the design picks the lowest; the property
+        \* does not say which); every other variable keeps its index; deleting and copying are exact
+        ELSE IF r.a.op = "fixset" THEN
+             (IF DOMAIN post # DOMAIN pre \cup {r.a.v} THEN Bad("fix.index", e)
+              ELSE IF \E w \in DOMAIN pre : post[w] # pre[w] THEN Bad("fix.index", e)
+              ELSE IF r.a.v \notin DOMAIN pre /\ post[r.a.v] < 1 THEN Bad("fix.positive", e)
+              ELSE Good)
         ELSE IF e # post THEN Bad("fix.index", e)
         ELSE Good
 \* construction from a list with colliding indexes: all variables kept, indexes distinct,
